@@ -9,37 +9,37 @@ CHECKS = {
     "C01": dict(
         cat="exploration", ref="4 C01",
         technique="property-based testing (proptest generators + exhaustive small scope) against a brute-force reference semantics",
-        text="Generated frameworks (mixed shapes, four presentations incl. sparse ids and duplicate attack lines, <=9/13 arguments) plus all digraphs on <=4 arguments (both tiers); every SE problem with every selectable encoder must return a member of the brute-force extension family (validity, not a golden output), None only when no stable extension exists, no duplicate or foreign members. Exploration, not proof: the right level because the domain is infinite and the oracle exact only on small graphs. About 1% of the cases are disjoint unions of 3-30 small components (20-200 arguments, interleaved ids, optionally joined into one connected component through a defeated hub) whose exact answers follow by composition from brute force per component.",
-        note="trusted: oracle.rs (self-tested on all graphs n<=3 at start-up), CaDiCaL; exact only for <=13 arguments"),
+        text="Generated frameworks (mixed shapes, four presentations incl. sparse ids and duplicate attack lines, <=9/13 arguments) plus all digraphs on <=4 arguments (both tiers); every SE problem with every selectable encoder must return a member of the brute-force extension family (validity, not a golden output), None only when no stable extension exists, no duplicate or foreign members. Exploration, not proof: the right level because the domain is infinite and the oracle exact only on small graphs. About 1% of the cases are disjoint unions of 3-30 small components (20-200 arguments, interleaved ids, optionally joined into one connected component through a defeated hub) whose exact answers follow by composition from brute force per component. One case in three runs with a SAT backend that returns chosen (non-default) models. 1-3% of the cases are irregular graphs of 14-24 arguments judged by a backtracking reference (validated against brute force at start-up); 2-4% are composites judged exactly by composition: unions of 3-45 components (20-200 arguments), closed-form components up to 60 arguments, one connected component through a defeated hub or through a gate argument attacked from every component (thousands of product extensions). The fixed case list contains one framework of 2^20+12 arguments for the grounded problems; fans of 2^16+ attackers are generated.",
+        note="trusted: oracle.rs (brute force <=13 arguments, backtracking reference <=24 arguments, composition rules; all self-tested against brute force at start-up), CaDiCaL"),
     "C02": dict(
         cat="exploration", ref="4 C02/C03",
         technique="property-based testing against a brute-force reference semantics",
-        text="Same generators; every DC problem x every argument x every selectable encoder x both entry points (plain / with certificate) on a fresh solver; status must equal 'some reference extension contains the argument', including NO everywhere when no stable extension exists. About 1% of the cases are disjoint unions of 3-30 small components (20-200 arguments, interleaved ids, optionally joined into one connected component through a defeated hub) whose exact answers follow by composition from brute force per component.",
-        note="trusted: oracle.rs, CaDiCaL; <=13 arguments"),
+        text="Same generators; every DC problem x every argument x every selectable encoder x both entry points (plain / with certificate) on a fresh solver; status must equal 'some reference extension contains the argument', including NO everywhere when no stable extension exists. About 1% of the cases are disjoint unions of 3-30 small components (20-200 arguments, interleaved ids, optionally joined into one connected component through a defeated hub) whose exact answers follow by composition from brute force per component. One case in three runs with a SAT backend that returns chosen (non-default) models. 1-3% of the cases are irregular graphs of 14-24 arguments judged by a backtracking reference (validated against brute force at start-up); 2-4% are composites judged exactly by composition: unions of 3-45 components (20-200 arguments), closed-form components up to 60 arguments, one connected component through a defeated hub or through a gate argument attacked from every component (thousands of product extensions). The fixed case list contains one framework of 2^20+12 arguments for the grounded problems; fans of 2^16+ attackers are generated.",
+        note="trusted: oracle.rs (brute force <=13 arguments, backtracking reference <=24 arguments, composition rules; all self-tested against brute force at start-up), CaDiCaL"),
     "C03": dict(
         cat="exploration", ref="4 C02/C03",
         technique="property-based testing against a brute-force reference semantics",
-        text="Same generators; every DS problem x every argument x every selectable encoder x both entry points; status must equal 'every reference extension contains the argument' (vacuous YES under ST without extension; DS-CO = grounded membership). About 1% of the cases are disjoint unions of 3-30 small components (20-200 arguments, interleaved ids, optionally joined into one connected component through a defeated hub) whose exact answers follow by composition from brute force per component.",
-        note="trusted: oracle.rs, CaDiCaL; <=13 arguments"),
+        text="Same generators; every DS problem x every argument x every selectable encoder x both entry points; status must equal 'every reference extension contains the argument' (vacuous YES under ST without extension; DS-CO = grounded membership). About 1% of the cases are disjoint unions of 3-30 small components (20-200 arguments, interleaved ids, optionally joined into one connected component through a defeated hub) whose exact answers follow by composition from brute force per component. One case in three runs with a SAT backend that returns chosen (non-default) models. 1-3% of the cases are irregular graphs of 14-24 arguments judged by a backtracking reference (validated against brute force at start-up); 2-4% are composites judged exactly by composition: unions of 3-45 components (20-200 arguments), closed-form components up to 60 arguments, one connected component through a defeated hub or through a gate argument attacked from every component (thousands of product extensions). The fixed case list contains one framework of 2^20+12 arguments for the grounded problems; fans of 2^16+ attackers are generated.",
+        note="trusted: oracle.rs (brute force <=13 arguments, backtracking reference <=24 arguments, composition rules; all self-tested against brute force at start-up), CaDiCaL"),
     "C04": dict(
         cat="exploration", ref="4 C04",
         technique="property-based testing; certificate validity predicate from brute-force reference semantics",
-        text="Multi-component-biased generator; every DC/DS problem with certificate: certificate present exactly when promised, is a reference extension (complete for DC-PR), contains / omits the argument, members are the framework's own arguments (label and id) once each. About 1% of the cases are disjoint unions of 3-30 small components (20-200 arguments, interleaved ids, optionally joined into one connected component through a defeated hub) whose exact answers follow by composition from brute force per component. Certificates on frameworks of 20-300 arguments are also judged by polynomial necessary conditions.",
-        note="trusted: oracle.rs, CaDiCaL; <=13 arguments"),
+        text="Multi-component-biased generator; every DC/DS problem with certificate: certificate present exactly when promised, is a reference extension (complete for DC-PR), contains / omits the argument, members are the framework's own arguments (label and id) once each. About 1% of the cases are disjoint unions of 3-30 small components (20-200 arguments, interleaved ids, optionally joined into one connected component through a defeated hub) whose exact answers follow by composition from brute force per component. Certificates on frameworks of 20-300 arguments are also judged by polynomial necessary conditions. One case in three runs with a SAT backend that returns chosen (non-default) models. 1-3% of the cases are irregular graphs of 14-24 arguments judged by a backtracking reference (validated against brute force at start-up); 2-4% are composites judged exactly by composition: unions of 3-45 components (20-200 arguments), closed-form components up to 60 arguments, one connected component through a defeated hub or through a gate argument attacked from every component (thousands of product extensions).",
+        note="trusted: oracle.rs (brute force <=13 arguments, backtracking reference <=24 arguments, composition rules; all self-tested against brute force at start-up), CaDiCaL"),
     "C07": dict(
         cat="exploration", ref="4 C07",
         technique="property-based testing + exhaustive small scope against the disjunctive reference answer",
-        text="Frameworks biased to several components with lists of 1-3 arguments (free, attack endpoints, one per component, repetitions); all static solver types x encoders x credulous/skeptical x both entry points on fresh solvers; status must equal the disjunction over the brute-force extensions, certificates valid for the disjunction. Exhaustive: all graphs on <=3 arguments x all lists of length <=2 (quick) / <=3 (thorough).",
-        note="trusted: oracle.rs, CaDiCaL; <=12 arguments"),
+        text="Frameworks biased to several components with lists of 1-3 arguments (free, attack endpoints, one per component, repetitions); all static solver types x encoders x credulous/skeptical x both entry points on fresh solvers; status must equal the disjunction over the brute-force extensions, certificates valid for the disjunction. Exhaustive: all graphs on <=3 arguments x all lists of length <=2 (quick) / <=3 (thorough). Every list query is also put to a SAT backend that returns chosen (non-default) models. Lists over composite frameworks of 20-200 arguments (incl. the gate construction) and over irregular graphs of 14-24 arguments are judged exactly.",
+        note="trusted: oracle.rs (brute force, backtracking reference, composition rules), CaDiCaL"),
     "C08": dict(
         cat="exploration", ref="4 C08",
         technique="model-based stateful property testing (generated update/query histories vs a set model + brute-force semantics)",
-        text="Generated histories (5-80 / up to 200 steps, <=7 live arguments out of 10 labels, re-added labels, query bursts) over 11 dynamic solver configurations incl. 7 reservation factors; after every query and in a final sweep, status and certificate must be those of the model's current framework by brute force; Err or panic on a valid step is a failure. The whole history shrinks as one value.",
+        text="Generated histories (5-80 / up to 200 steps, <=7 live arguments out of 10 labels, re-added labels, query bursts) over 11 dynamic solver configurations incl. 7 reservation factors; after every query and in a final sweep, status and certificate must be those of the model's current framework by brute force; Err or panic on a valid step is a failure. The whole history shrinks as one value. One case in three uses labels whose Hash is much coarser than their Eq, one in three a SAT backend returning chosen models; a quarter of the histories run over 2-5 label groups (up to 35 live arguments, exact by composition) and contain bursts that push ids and SAT variables into the hundreds.",
         note="trusted: oracle.rs, the set model; <=7 live arguments; single-argument supported query kinds only"),
     "C09": dict(
         cat="exploration", ref="4 C09",
         technique="model-based stateful property testing with injected redundant/invalid updates",
-        text="C08 histories with ~15% redundant or invalid updates at any position; redundant must be Ok and without effect, invalid must be rejected by the update call itself, all later answers must match the model that ignored them.",
+        text="C08 histories with ~15% redundant or invalid updates at any position; redundant must be Ok and without effect, invalid must be rejected by the update call itself, all later answers must match the model that ignored them. Label type with coarse Hash, chosen-model backend, label groups and id inflation as in C08.",
         note="trusted: oracle.rs, the set model; fault kinds are those the property lists"),
     "C15": dict(
         cat="exploration", ref="4 C15",
@@ -49,57 +49,57 @@ CHECKS = {
     "C16": dict(
         cat="exploration", ref="4 C16",
         technique="property-based testing through a harness-owned external solver process (strict DIMACS validator, generated reply volume / I/O order / reply grammar) with a reference reply parser",
-        text="Argumentation queries through ExternalSatSolver(fake_sat): every DIMACS text validated strictly inside the child; reply volume 20 B-1 MiB via comment padding, v-line widths, read-first/write-first/interleaved I/O, CRLF; models above 64 KiB via 8k-30k argument chains; generated well- and ill-formed replies replayed verbatim and compared with an independent reply parser (Sat(model)/Unsat/Invalid/Unspecified). 20 s per-call watchdog consulting the child's progress log: a blocked write of >64 KiB is a violation, any other expiry is inconclusive.",
+        text="Argumentation queries through ExternalSatSolver(fake_sat): every DIMACS text validated strictly inside the child; reply volume 20 B-1 MiB via comment padding, v-line widths, read-first/write-first/interleaved I/O, CRLF; models above 64 KiB via 8k-30k argument chains; generated well- and ill-formed replies replayed verbatim and compared with an independent reply parser (Sat(model)/Unsat/Invalid/Unspecified). 20 s per-call watchdog consulting the child's progress log: a blocked write of >64 KiB is a violation, any other expiry is inconclusive. The solver also prints 0-260 KiB of diagnostics on stderr before reading, before or after its reply.",
         note="trusted: fake_sat validator, reference reply parser; kernel scheduling not enumerated (the harness owns the child's side of the interleaving only)"),
     "C17": dict(
         cat="fault_enumeration", ref="4 C17",
         technique="fault injection enumerated over every SAT-call position of generated queries and dynamic histories (library wrapper, external process, command line)",
-        text="For each generated problem / dynamic history the clean run is validated against the reference semantics and its k SAT calls counted; the query is then re-run for every position 1..k with the backend failing there: Unknown through a SatSolver wrapper, and {silent exit, non-zero exit, status without model, truncated model/status, stray line, s UNKNOWN, abort} through the harness-owned external solver, via ExternalSatSolver and via `crustabri solve --external-sat-solver`. Any returned status/extension/certificate, exit status 0 or answer line on stdout is a violation. All positions are enumerated per generated case; the cases themselves are sampled.",
+        text="For each generated problem / dynamic history the clean run is validated against the reference semantics and its k SAT calls counted; the query is then re-run for every position 1..k with the backend failing there: Unknown through a SatSolver wrapper, and {silent exit, non-zero exit, status without model, truncated model/status, stray line, s UNKNOWN, abort} through the harness-owned external solver, via ExternalSatSolver and via `crustabri solve --external-sat-solver`. Any returned status/extension/certificate, exit status 0 or answer line on stdout is a violation. All positions are enumerated per generated case; the cases themselves are sampled. Garbled lines come as ASCII, binary, a reply cut inside a multi-byte character, and Latin-1; a solver that cannot be started at all is one more kind.",
         note="trusted: wrappers, fake_sat; positions exhaustive per case, cases generated (<=8 arguments, histories <=40/80 steps)"),
     "C10": dict(
         cat="translation_validation", ref="4 C10",
         technique="translation validation of every generated CNF: exhaustive assumption probing of all argument subsets against brute-force families, driven by generated and exhaustively enumerated frameworks",
-        text="For each generated or enumerated framework with compact ids and each of the 7 encoders (plain and with range), the recorded clause list is validated exactly: for every subset S of the arguments, CNF+S is satisfiable iff S is in the intended family (conflict-free/admissible/complete/stable by brute force); assignment_to_extension returns S; range variables sound and complete; literal layout injective, positive, disjoint from range variables, within n_vars. Exact per program for <=10 arguments; programs are sampled (plus all digraphs on <=3/4 arguments). One case in 40 is a framework of 11-48 arguments probed on the CNF's own model, its neighbours and generated subsets with polynomial membership tests; in 40% of the cases the encoder object is reused after another framework.",
+        text="For each generated or enumerated framework with compact ids and each of the 7 encoders (plain and with range), the recorded clause list is validated exactly: for every subset S of the arguments, CNF+S is satisfiable iff S is in the intended family (conflict-free/admissible/complete/stable by brute force); assignment_to_extension returns S; range variables sound and complete; literal layout injective, positive, disjoint from range variables, within n_vars. Exact per program for <=10 arguments; programs are sampled (plus all digraphs on <=3/4 arguments). One case in 40 is a framework of 11-48 arguments probed on the CNF's own model, its neighbours and generated subsets with polynomial membership tests; in 40% of the cases the encoder object is reused after another framework. Large cases (11-320 arguments, incl. frameworks whose attacks are patterns over residues modulo 32/64 lifted to several floors, optionally after a warm-up of the same encoder object on a dense clique) are checked by an exact SAT search for a model of the CNF outside the intended family, re-confirmed polynomially.",
         note="trusted: oracle.rs families, CadicalSolver as probe (checked by C15); frameworks <=10 arguments"),
     "C12": dict(
         cat="exploration", ref="4 C12",
         technique="model-based stateful property testing (update histories vs a set model) + exhaustive enumeration of short histories",
-        text="Generated histories of up to 200/600 operations over 4-8 labels (usize and String) with arbitrary operands, full observable-state comparison with a set model after every step, Result vs precondition, id uniqueness/stability/no reuse; plus every 4-step (quick) / 5-step (thorough) history over two labels. 20% of the histories run over 20-120 labels with hub bias (long adjacency lists, ids in the hundreds).",
+        text="Generated histories of up to 200/600 operations over 4-8 labels (usize and String) with arbitrary operands, full observable-state comparison with a set model after every step, Result vs precondition, id uniqueness/stability/no reuse; plus every 4-step (quick) / 5-step (thorough) history over two labels. 20% of the histories run over 20-120 labels with hub bias (long adjacency lists, ids in the hundreds). A quarter of the histories use a label type whose Hash is coarser than its Eq (colliding labels).",
         note="trusted: the set model"),
     "C14": dict(
         cat="exploration", ref="4 C14",
         technique="round-trip property testing with an independent tokenizer and byte-exact expected output",
-        text="Frameworks produced by generated update histories over identifier labels are written by AspartixWriter, checked byte-wise against the set model by an independent tokenizer, and read back by AspartixReader (same labels in order, same attacks); generated ordered extensions (incl. empty) through both response writers must produce exactly the specified bytes; statuses exactly YES/NO lines. One case in 4000 writes extensions of up to 30000 (thorough 120000) labels and frameworks of that size.",
+        text="Frameworks produced by generated update histories over identifier labels are written by AspartixWriter, checked byte-wise against the set model by an independent tokenizer, and read back by AspartixReader (same labels in order, same attacks); generated ordered extensions (incl. empty) through both response writers must produce exactly the specified bytes; statuses exactly YES/NO lines. One case in 4000 writes extensions of up to 30000 (thorough 120000) labels and frameworks of that size. Sinks include one that accepts only 1-65535 bytes per write call; large cases carry identifiers of 2^16 bytes one time in four.",
         note="trusted: the tokenizer (20 lines) and the set model; labels are valid Aspartix identifiers"),
     "C18": dict(
         cat="exploration", ref="4 C18",
         technique="property-based testing with a counting/recording SAT wrapper whose cap is the stated bound (liveness reduced to a safety bound)",
-        text="Generated problems on frameworks of <=9/11 arguments (70% connected) run with a SAT factory that aborts at bound+1 calls, the bound being computed per component from brute-force counts exactly as the property states; recorded models on one instance must be pairwise distinct (PR) / at most twice (ID) when projected on the argument variables; DS queries of generated dynamic-preferred histories bounded by |CO|+|PR|+1. Scripts of queries on ONE solver object get a bound per query.",
+        text="Generated problems on frameworks of <=9/11 arguments (70% connected) run with a SAT factory that aborts at bound+1 calls, the bound being computed per component from brute-force counts exactly as the property states; recorded models on one instance must be pairwise distinct (PR) / at most twice (ID) when projected on the argument variables; DS queries of generated dynamic-preferred histories bounded by |CO|+|PR|+1. Scripts of queries on ONE solver object get a bound per query. A preferred search on a connected framework may make at most |candidates|-1 satisfiable calls per solver instance. One case in three runs under a backend returning chosen models (the bounds are stated in candidate sets).",
         note="trusted: oracle.rs counts; termination of individual CaDiCaL calls assumed"),
     "C19": dict(
         cat="exploration", ref="4 C19",
         technique="property-based testing + exhaustive small scope against brute-force complete extensions",
-        text="Generated frameworks (<=10/13 arguments, compact ids incl. duplicate attack lines) and all digraphs on <=3/4 arguments: classes of the reduction partition the arguments, the two mappings are inverse at class level, every class is inside or outside each complete extension, grounded and defeated sets each within one class, no panic. One case in 300 is a union of many small components (20-200 arguments) judged exactly by per-component signatures.",
+        text="Generated frameworks (<=10/13 arguments, compact ids incl. duplicate attack lines) and all digraphs on <=3/4 arguments: classes of the reduction partition the arguments, the two mappings are inverse at class level, every class is inside or outside each complete extension, grounded and defeated sets each within one class, no panic. One case in 300 is a union of many small components (20-200 arguments) judged exactly by per-component signatures. The fixed case list contains one grounded-decided framework of 2^20+12 arguments; fans with a line repeated 2^16+ times are generated.",
         note="trusted: oracle.rs complete extensions"),
     "C05": dict(
         cat="exploration", ref="4 C05",
         technique="property-based testing of the two binaries built from /repo's working tree: generated instance files and argv, answer-grammar parser + brute-force reference; generated bad invocations",
-        text="~3200 (quick) / 60000 (thorough) process invocations: generated files in both formats x 21 problems in random letter case x argument x reader/encoding/certificate/logging-level/external-solver options for `crustabri solve` and -f/-p/-a for `crustabri_iccma23`; stdout minus logger lines must be exactly the answer grammar and the answer right by the reference; 14 kinds of bad invocation must exit non-zero without an answer line; the problems listing must be exactly the 21 problems.",
+        text="~3200 (quick) / 60000 (thorough) process invocations: generated files in both formats x 21 problems in random letter case x argument x reader/encoding/certificate/logging-level/external-solver options for `crustabri solve` and -f/-p/-a for `crustabri_iccma23`; stdout minus logger lines must be exactly the answer grammar and the answer right by the reference; 14 kinds of bad invocation must exit non-zero without an answer line; the problems listing must be exactly the 21 problems. Instances are padded with up to 5200 isolated arguments, every path and external-solver option value contains whitespace, identifiers of 200-700 characters occur.",
         note="trusted: oracle.rs, the answer-grammar parser, refparse.rs for ill-formed files; <=7 arguments"),
     "C06": dict(
         cat="exploration", ref="4 C06",
         technique="stateful property-based testing: generated query scripts on one solver object per configuration, each answer against the reference (differential across encodings/backends by transitivity)",
-        text="Generated scripts of 3-12 (thorough: up to 30) SE/DC/DS steps with repetitions and certificate flags put to ONE solver object per (solver type, selectable encoder, backend in embedded / ExternalSatSolver(fake_sat) / ExternalSatSolver(kissat)); every answer equals the brute-force answer; a snapshot of the framework before equals the one after. One case in 250 compares the embedded and an external backend on a framework of 40-200 arguments.",
+        text="Generated scripts of 3-12 (thorough: up to 30) SE/DC/DS steps with repetitions and certificate flags put to ONE solver object per (solver type, selectable encoder, backend in embedded / ExternalSatSolver(fake_sat) / ExternalSatSolver(kissat)); every answer equals the brute-force answer; a snapshot of the framework before equals the one after. One case in 250 compares the embedded and an external backend on a framework of 40-200 arguments. A command-line matrix puts one problem to `crustabri solve` under every --encoding value x {embedded, fake_sat, kissat}. A fourth library backend returns chosen (non-default) models.",
         note="trusted: oracle.rs; kissat optional; <=8 arguments"),
     "C13": dict(
         cat="exploration", ref="4 C13",
         technique="grammar-based + mutation-based generation of byte strings, differential against tri-state reference parsers; libFuzzer target with the same oracle in the thorough tier",
-        text="Millions of byte strings per run for both readers: grammar-based well-formed files with all format-defined decorations, targeted corruptions of each listed ill-formedness class, byte-level mutations, token soup, raw bytes (invalid UTF-8, NUL). No panic; Accept => exactly the declared labels in order and attack set; Reject => Err; Unspecified => Err or the natural reading; read_arg_from_str in and out of range.",
+        text="Millions of byte strings per run for both readers: grammar-based well-formed files with all format-defined decorations, targeted corruptions of each listed ill-formedness class, byte-level mutations, token soup, raw bytes (invalid UTF-8, NUL). No panic; Accept => exactly the declared labels in order and attack set; Reject => Err; Unspecified => Err or the natural reading; read_arg_from_str in and out of range. Line-lengthening mutations reach 2^16 units one time in 1009; one file in 3000 is a large ICCMA'23 file (up to 100000 arguments).",
         note="trusted: refparse.rs and its list of unspecified inputs (DESIGN.md 3.5); declared sizes >10^5 excluded and counted"),
     "C11": dict(
         cat="exploration", ref="4 C11",
         technique="metamorphic property-based testing on frameworks of 20-300 arguments (renaming, reordering, duplication, format switch, disjoint union, component removal) plus cross-semantics consistency relations",
-        text="Frameworks far beyond the brute-force oracle, assembled from small blocks into components of very different sizes; 2-4 random transformations composed; all 14 DC/DS statuses of 4-8 queried arguments must be unchanged (ST: by the stated rule on stable extensions of the added/removed part), returned extensions must satisfy polynomial necessary conditions, and the answers of the 21 problems on each framework must satisfy the listed consistency relations (and their textbook consequences). Fan gadgets give in-degrees of several hundred, 20% of the frameworks are padded to a multiple of 64 arguments, one attack line may be repeated 200-700 times.",
+        text="Frameworks far beyond the brute-force oracle, assembled from small blocks into components of very different sizes; 2-4 random transformations composed; all 14 DC/DS statuses of 4-8 queried arguments must be unchanged (ST: by the stated rule on stable extensions of the added/removed part), returned extensions must satisfy polynomial necessary conditions, and the answers of the 21 problems on each framework must satisfy the listed consistency relations (and their textbook consequences). Fan gadgets give in-degrees of several hundred, 20% of the frameworks are padded to a multiple of 64 arguments, one attack line may be repeated 200-700 times. One case in three runs under a SAT backend returning chosen models.",
         note="relations are necessary conditions only; trusted: the polynomial checkers, oracle.rs on the small added/removed parts"),
 }
 
